@@ -19,15 +19,15 @@ func main() {
 	}
 	env := FromFlags("c16")
 	env.Import = "Otto.C16.Corr"
-	env.Rule = "numeric cells: every (source payload kind x Go target kind) pair with the limits of both kinds +-2 (+-0.5 and the neighbouring doubles for float sources), NaN, +-Infinity, -0, float32/float64 precision and range edges, through seven paths (parameter, struct field, variadic tail, slice/map element, pointer, struct literal); element stores into []T, *[N]T, map[string]T and the append position with numbers of every payload kind and coerced primitives; arity sweeps 0..4 parameters x 0..6 arguments, variadic or not; interleaved script/Go histories (2-8 operations: get, set, delete, length, set length, push, pop, keys, in, Go get/set/len/append/reslice) on []int by value and as a field of *struct, *[N]int, map[string]int, *struct with tags/embedded/unexported/hidden fields and random reflect.StructOf tables; calls of reflect-built signatures (depth <= 2 over numbers, bool, string, interface{}, slices, maps, pointers, structs, variadics) with mostly well-shaped arguments; multiple return values; pinned witnesses of every listed finding first. non-trivial = distinct case other than a small in-range integer of the same kind"
+	env.Rule = "numeric cells: every (source payload kind x Go target kind) pair with the limits of both kinds +-2 (+-0.5 and the neighbouring doubles for float sources), NaN, +-Infinity, -0, float32/float64 precision and range edges, through seven paths (parameter, struct field, variadic tail, slice/map element, pointer, struct literal); element stores into []T, *[N]T, map[string]T and the append position with numbers of every payload kind and coerced primitives; arity sweeps 0..4 parameters x 0..6 arguments, variadic or not; interleaved script/Go histories (2-8 operations: get, set, delete, length, set length, push, pop, keys, in, set/get/in/delete of a non-index property, Go get/set/len/append/reslice) on []int by value and as a field of *struct, *[N]int, map[string]int, *struct with tags/embedded/unexported/hidden fields and random reflect.StructOf tables; calls of reflect-built signatures (depth <= 2 over numbers, bool, string, interface{}, slices, maps, pointers, structs, variadics) with mostly well-shaped arguments; multiple return values; re-entrant calls from inside argument conversion; size-preserving Go-side map mutations between enumerations; same-named distinct struct types; nested addressable values passed to pointer/value/interface parameters; float32 payloads (*float32) among the sources; pinned witnesses of every open finding and regression cases of repaired ones first. non-trivial = distinct case other than a small in-range integer of the same kind"
 	g := &gen{env: env}
 	g.pinned()
+	g.pinnedWitnesses()
 	g.pinnedHists()
 	g.pinnedReent()
 	g.ptrHist([]string{"bumpC", "readC", "goC", "bumpC", "goC", "fill", "readG", "goG"})
 	g.sameNameStructs()
 	g.sameNameCalls()
-	g.pinnedWitnesses()
 	g.sweepNum()
 	g.sweepStore()
 	g.sweepArity()
@@ -123,6 +123,9 @@ type numv struct {
 }
 
 func (n numv) coq() string {
+	if n.k == kF32 {
+		n.f = float64(float32(n.f))
+	}
 	if kinds[n.k].flt {
 		return fmt.Sprintf("(%s, %s)", kinds[n.k].coq, Cdouble(n.f))
 	}
@@ -130,6 +133,9 @@ func (n numv) coq() string {
 }
 
 func (n numv) String() string {
+	if n.k == kF32 {
+		return fmt.Sprintf("*float32(%s)", JSNum(float64(float32(n.f))))
+	}
 	if kinds[n.k].flt {
 		return fmt.Sprintf("%s(%s)", kinds[n.k].rt, JSNum(n.f))
 	}
@@ -138,6 +144,12 @@ func (n numv) String() string {
 
 // the Go value to hand to vm.Set
 func (n numv) goValue() interface{} {
+	if n.k == kF32 {
+		// a float32 handed over directly is widened to float64 by toValue; through a
+		// pointer it keeps its float32 payload
+		x := float32(n.f)
+		return &x
+	}
 	v := reflect.New(kinds[n.k].rt).Elem()
 	switch {
 	case kinds[n.k].flt:
@@ -151,6 +163,9 @@ func (n numv) goValue() interface{} {
 }
 
 func (n numv) trivial() bool {
+	if n.k == kF32 {
+		return false
+	}
 	if kinds[n.k].flt {
 		return n.f == math.Trunc(n.f) && math.Abs(n.f) < 100 && !(n.f == 0 && math.Signbit(n.f))
 	}
@@ -415,9 +430,6 @@ func (g *gen) sweepNum() {
 	}
 	var cells []cell
 	for src := range kinds {
-		if src == kF32 {
-			continue // a float32 handed to otto is stored as float64
-		}
 		for tgt := range kinds {
 			for _, n := range g.payloadsFor(src, tgt) {
 				cells = append(cells, cell{src, tgt, n})
@@ -436,9 +448,6 @@ func (g *gen) sweepNum() {
 
 func (g *gen) randSrcKind() int {
 	k := g.env.Rng.Intn(len(kinds))
-	if k == kF32 {
-		k = kF64
-	}
 	if g.env.Rng.Intn(3) == 0 {
 		k = kF64
 	}
@@ -549,7 +558,12 @@ func (g *gen) storeCase(cont int, v sval, tgt int) {
 	}
 	aTxt := ""
 	if v.set != nil {
-		aTxt = fmt.Sprintf(" a=%s(%v)", reflect.TypeOf(v.set), v.set)
+		sv := reflect.ValueOf(v.set)
+		if sv.Kind() == reflect.Ptr {
+			aTxt = fmt.Sprintf(" a=%s(%v)", sv.Type(), sv.Elem().Interface())
+		} else {
+			aTxt = fmt.Sprintf(" a=%s(%v)", sv.Type(), v.set)
+		}
 	}
 	txt := fmt.Sprintf("store v=%s%s into %s (T=%s, element was 7): %s, Go side now %s%s", v.js, aTxt, contNames[cont], T, describe(o), obs, jsTxt)
 	g.env.Add(fmt.Sprintf("CStore %d %s %s %s %s", cont, v.coq, kinds[tgt].coq, obs, js), txt, "store", !v.tr)
@@ -565,9 +579,6 @@ func (g *gen) sweepStore() {
 	var cells []cell
 	for tgt := range kinds {
 		for src := range kinds {
-			if src == kF32 {
-				continue
-			}
 			for _, n := range g.payloadsFor(src, tgt) {
 				if src != kF64 && r.Intn(3) != 0 {
 					continue // doubles and literals are what scripts store; thin out the host-typed sources
